@@ -116,14 +116,16 @@ type recMultiUndirected struct {
 	subs []dot.Multigraph
 }
 
-func (g *recDirected) Structure() []dot.Graph               { return g.subs }
-func (g *recUndirected) Structure() []dot.Graph             { return g.subs }
-func (g *recMultiDirected) Structure() []dot.Multigraph     { return g.subs }
-func (g *recMultiUndirected) Structure() []dot.Multigraph   { return g.subs }
-func (g *recDirected) NewNode() graph.Node                  { return &recNode{id: g.DirectedGraph.NewNode().ID()} }
-func (g *recUndirected) NewNode() graph.Node                { return &recNode{id: g.UndirectedGraph.NewNode().ID()} }
-func (g *recMultiDirected) NewNode() graph.Node             { return &recNode{id: g.DirectedGraph.NewNode().ID()} }
-func (g *recMultiUndirected) NewNode() graph.Node           { return &recNode{id: g.UndirectedGraph.NewNode().ID()} }
+func (g *recDirected) Structure() []dot.Graph             { return g.subs }
+func (g *recUndirected) Structure() []dot.Graph           { return g.subs }
+func (g *recMultiDirected) Structure() []dot.Multigraph   { return g.subs }
+func (g *recMultiUndirected) Structure() []dot.Multigraph { return g.subs }
+func (g *recDirected) NewNode() graph.Node                { return &recNode{id: g.DirectedGraph.NewNode().ID()} }
+func (g *recUndirected) NewNode() graph.Node              { return &recNode{id: g.UndirectedGraph.NewNode().ID()} }
+func (g *recMultiDirected) NewNode() graph.Node           { return &recNode{id: g.DirectedGraph.NewNode().ID()} }
+func (g *recMultiUndirected) NewNode() graph.Node {
+	return &recNode{id: g.UndirectedGraph.NewNode().ID()}
+}
 func (g *recDirected) NewEdge(f, t graph.Node) graph.Edge   { return &recEdge{f: f, t: t} }
 func (g *recUndirected) NewEdge(f, t graph.Node) graph.Edge { return &recEdge{f: f, t: t} }
 func (g *recMultiDirected) NewLine(f, t graph.Node) graph.Line {
@@ -718,8 +720,8 @@ func drawDOT(t *rapid.T) dotCase {
 		}
 		c.Nodes = append(c.Nodes, nd)
 		// distinct nodes must stay distinct after decoding
-		if e := c.nodeExpectID(i); seen[e] {
-			c.Nodes[i].Plain, c.Nodes[i].DOTID = false, []byte(fmt.Sprintf("u%d", i))
+		for k := 0; seen[c.nodeExpectID(i)]; k++ {
+			c.Nodes[i].Plain, c.Nodes[i].DOTID = false, []byte(fmt.Sprintf("u%d_%d", i, k))
 		}
 		seen[c.nodeExpectID(i)] = true
 	}
